@@ -75,6 +75,82 @@ def special_table(rng, kind, nr, nc):
     return [[rng.randint(0, 8) for _ in range(nc)] for _ in range(nr)]
 
 
+def survey_from_weighted_table(rng, rowv, colv, table):
+    """A WEIGHTED survey with ONE respondent per non-empty valid x valid cell whose weight is the
+    cell's (integer or dyadic) count: the weighted table is exactly `table` whatever its size
+    (population-projected weights: 1e8 .. 1e10 and beyond; integers below 2^53 are exact in
+    float64), without a respondent per unit of count."""
+    sv = gen.Survey([rowv, colv], 0, rng, weighted=True)
+    ridx = [k for k, c in enumerate(rowv.cats) if not c["missing"]]
+    cidx = [k for k, c in enumerate(colv.cats) if not c["missing"]]
+    for i, row in enumerate(table):
+        for j, n in enumerate(row):
+            if n:
+                sv.resp.append({"ans": {rowv.alias: ridx[i], colv.alias: cidx[j]}, "w": Fraction(n), "num": {}})
+    return sv
+
+
+def _composition(rng, total, k):
+    """k non-negative integers summing to total"""
+    cuts = sorted(rng.randint(0, total) for _ in range(k - 1))
+    return [b - a for a, b in zip([0] + cuts, cuts + [total])]
+
+
+def zero_block_table(rng, nr, nc):
+    """(table, addend column positions A, complement positions): an nr x nc integer table of rank
+    >= 2 in which the columns A together hold THE SAME share s of every row (s dyadic, every row
+    total a positive multiple of 4): the subtotal column over A has count == expected count in every
+    row EXACTLY, also in float64 (row base * column base is a small integer, its quotient by the
+    table base is representable), so its z-scores are exactly 0 and its p-values must be 1."""
+    assert nr >= 2 and nc >= 3
+    for _ in range(50):
+        A = sorted(rng.sample(range(nc), rng.randint(2, nc - 1)))
+        rest = [j for j in range(nc) if j not in A]
+        s = rng.choice([Fraction(1, 2), Fraction(1, 4), Fraction(3, 4)])
+        table = []
+        for _i in range(nr):
+            R = 4 * rng.randint(1, 6)
+            S = int(s * R)
+            row = [0] * nc
+            for j, x in zip(A, _composition(rng, S, len(A))):
+                row[j] = x
+            for j, x in zip(rest, _composition(rng, R - S, len(rest))):
+                row[j] = x
+            table.append(row)
+        if rank_class(table) == "full":
+            return table, A, rest
+    # fall-back: a fixed instance (the seeded example's shape)
+    return [[1, 2, 3, 4, 0][:nc] + [0] * max(0, nc - 5) for _ in range(nr)], [0, 1], list(range(2, nc))
+
+
+def large_table(rng, nr, nc, kind):
+    """Integer count tables of population-projected size (table base 1e8 .. 1e10).
+    'near_proportional': round(T r_i c_j) + d_ij with |d_ij| / expected log-uniform in
+    [3e-6, 1e-3] - residuals tiny RELATIVE to the expected count (the realm of rtol-style
+    tolerances) yet worth |z| of 0.01 .. 50; margins balanced so that no share exceeds ~0.6;
+    'random': independent counts up to 1e10 / (nr nc)."""
+    T = 10 ** rng.uniform(8, 10)
+    if kind == "random":
+        top = int(T / (nr * nc)) * 2
+        return [[rng.randint(0, top) for _ in range(nc)] for _ in range(nr)]
+    rs = [rng.uniform(1, 2) for _ in range(nr)]
+    cs = [rng.uniform(1, 2) for _ in range(nc)]
+    rs = [x / sum(rs) for x in rs]
+    cs = [x / sum(cs) for x in cs]
+    rel = 10 ** rng.uniform(-5.5, -3)
+    table = []
+    for i in range(nr):
+        row = []
+        for j in range(nc):
+            e = T * rs[i] * cs[j]
+            d = e * rel * rng.uniform(0.3, 1.0) * rng.choice([-1, 1])
+            if rng.random() < 0.15:
+                d = 0
+            row.append(max(0, int(round(e + d))))
+        table.append(row)
+    return table
+
+
 # ------------------------------------------------------------------------------------
 # display transforms
 # ------------------------------------------------------------------------------------
@@ -142,9 +218,15 @@ def is_num(x):
 # rank classification of the base counts (assumption about numpy.linalg.matrix_rank)
 # ------------------------------------------------------------------------------------
 
-def rank_class(base):
-    """'deficient' (all 2x2 minors exactly 0 or an empty axis), 'full' (a minor >= 1e-3 of the
-    squared largest entry) or 'unclear' (skipped: SVD tolerance territory)."""
+def rank_class(base, full_rel=Fraction(1, 1000)):
+    """'deficient' (all 2x2 minors exactly 0 or an empty axis), 'full' (a minor >= full_rel of the
+    squared largest entry) or 'unclear' (skipped: SVD tolerance territory).
+
+    Why a relative minor decides: the largest |2x2 minor| m of a matrix is an entry of its second
+    compound matrix, whose spectral norm is sigma_1 * sigma_2, so sigma_2 >= m / sigma_1 and, with
+    sigma_1 <= ||A||_F <= sqrt(nr nc) * big,  sigma_2 / sigma_1 >= m / (nr nc big^2).  numpy's
+    matrix_rank counts the singular values above sigma_1 * max(nr, nc) * 2.2e-16: with
+    m >= 1e-9 big^2 and nr nc <= 64 the ratio is >= 1.5e-11, four orders above that tolerance."""
     nr = len(base)
     nc = len(base[0]) if nr else 0
     if nr == 0 or nc == 0:
@@ -163,6 +245,6 @@ def rank_class(base):
                         best = d
     if best == 0:
         return "deficient"
-    if best >= Fraction(1, 1000) * big * big:
+    if best >= Fraction(full_rel) * big * big:
         return "full"
     return "unclear"
